@@ -219,6 +219,15 @@ def make(rng=None, kind="3B2", stream="ap", sites=None, n=384, encoding="shank",
     return r
 
 
+def sync_words(rng, shape):
+    """16-bit sync words using all 16 lines (line 15 set = negative int16), with the extreme words 0x8000, 0xFFFF, 0x7FFF and 0 sprinkled in"""
+    w = rng.integers(-32768, 32768, shape, dtype=np.int64)
+    special = np.array([-32768, -1, 32767, 0, -32767], dtype=np.int64)
+    m = rng.random(shape) < 0.08
+    w[m] = special[rng.integers(0, special.size, int(m.sum()))]
+    return w.astype(np.int16)
+
+
 def make_raw(rng, ns, nc, nsync=1, content="random", maxint=512):
     if content == "random":
         raw = rng.integers(-32768, 32768, (ns, nc), dtype=np.int64).astype(np.int16)
@@ -237,7 +246,7 @@ def make_raw(rng, ns, nc, nsync=1, content="random", maxint=512):
     else:
         raise ValueError(content)
     if nsync:
-        raw[:, nc - nsync:] = rng.integers(0, 2 ** 15, (ns, nsync)).astype(np.int16)
+        raw[:, nc - nsync:] = sync_words(rng, (ns, nsync))
     return np.ascontiguousarray(raw)
 
 
@@ -285,7 +294,7 @@ def make_nidq(rng, mn=0, ma=0, xa=1, dw=1, mn_gain=200, ma_gain=1, aimax=5, fs=3
     r.order = np.arange(r.nc)
     if raw is None:
         raw = rng.integers(-32768, 32768, (ns, r.nc), dtype=np.int64).astype(np.int16)
-        raw[:, r.nc - dw:] = rng.integers(0, 2 ** 15, (ns, dw)).astype(np.int16)
+        raw[:, r.nc - dw:] = sync_words(rng, (ns, dw))
     r.raw = np.ascontiguousarray(raw)
     return r
 
